@@ -131,15 +131,38 @@ func runShard(args []string) (code int) {
 	if c.Scenarios != nil {
 		scs := c.Scenarios(*tier)
 		ex := explore.New(deadline)
-		for i, sc := range scs {
-			if i%*n != *shard {
-				continue
+		// thorough tier: a first pass explores every scenario of the shard with its bound lowered to 2, the second
+		// pass with the full bound; if the budget ends during the second pass every scenario has still been covered
+		// completely at the lower bound (reported as such), instead of the tail of the list never being started
+		passes := []int{-9}
+		if *tier == "thorough" {
+			passes = []int{2, -9}
+		}
+		for pi, pb := range passes {
+			for i, sc := range scs {
+				if i%*n != *shard {
+					continue
+				}
+				full := sc.Bound
+				if pb != -9 {
+					if full >= 0 && full <= pb {
+						continue // the full pass will cover it anyway
+					}
+					sc.Bound = pb
+					sc.Family += fmt.Sprintf(" [pass d<=%d]", pb)
+				} else if pi > 0 && full >= 0 && full <= passes[0] {
+					// not explored in the first pass
+				}
+				if time.Now().After(deadline) {
+					ex.Stats.Capped = append(ex.Stats.Capped, sc.Name+fmt.Sprintf(" (not started at bound %d)", sc.Bound))
+				} else {
+					ex.Explore(sc)
+				}
+				if pb != -9 {
+					sc.Bound = full
+					sc.Family = strings.TrimSuffix(sc.Family, fmt.Sprintf(" [pass d<=%d]", pb))
+				}
 			}
-			if time.Now().After(deadline) {
-				ex.Stats.Capped = append(ex.Stats.Capped, sc.Name+" (not started)")
-				continue
-			}
-			ex.Explore(sc)
 		}
 		st := ex.Stats
 		res.Execs, res.Transitions, res.States, res.Steps, res.MaxDepth, res.Replayed = st.Execs, st.Transitions, st.States, st.Steps, st.MaxDepth, st.Replayed
